@@ -482,8 +482,20 @@ def edge_signature(st, lab):
     pol = dict(st["polar"]) if st["polar"] else {}
     arg0 = lab[1][0] if lab[1] else None
     target = arg0 if isinstance(arg0, str) else (arg0[0] if isinstance(arg0, tuple) and arg0 and isinstance(arg0[0], str) else None)
+    # value context of coordinate / standardising actions: a negative radius, a partner of a tie whose other
+    # component holds the same number (distinct variables with equal values), a zero component
+    val = lambda n: st["store"][cells[n]]
+    coord = lab[0] in ("StdPolar", "StdPolarAll", "StandardComplex", "Rp2xy", "Xy2rp", "Rp2xyAll", "Xy2rpAll", "Refresh")
+    zs = sorted(pol)
+    neg_r = coord and any(pol[z] and val(z + "r") < 0 for z in zs)
+    partners_equal = coord and any(
+        z < w and ((cells[z + "r"] == cells[w + "r"]) != (cells[z + "i"] == cells[w + "i"]))
+        and (val(z + "i") == val(w + "i") if cells[z + "r"] == cells[w + "r"] else val(z + "r") == val(w + "r"))
+        for z in zs for w in zs)
     return (
         lab[0],
+        neg_r,
+        partners_equal,
         bool(fixed),
         bool(tied),
         any(cells[g[0]] not in free_cells for g in tied),                       # a tied group that is fixed
